@@ -11,6 +11,7 @@ pub mod model;
 pub mod runner;
 pub mod sched;
 pub mod seq;
+pub mod setconc;
 pub mod setseq;
 pub mod types;
 
